@@ -97,7 +97,7 @@ prop("C01",
 
 prop("C07",
      specgen=(30, 800),
-     scripts=lambda tier, rnd: S.collision() + [x for x in S.gated() if "collision" in x["tags"]] + S.pm_busy() + S.pm_gates() +
+     scripts=lambda tier, rnd: S.collision() + [x for x in S.backpressure() if "-collision-" in x["id"]] + [x for x in S.gated() if "collision" in x["tags"]] + S.pm_busy() + S.pm_gates() +
      [x for x in S.stop_dial_race(6 if tier == "thorough" else 3) if "-est-" in x["id"]] +
      (S.collision_racy(rnd, 400 if tier == "thorough" else 8)),
      mc=lambda tier: [mc_pair(["openLo", "ka"])] if tier == "quick" else
@@ -110,7 +110,7 @@ prop("C07",
 
 prop("C09",
      specgen=(40, 1200),
-     scripts=lambda tier, rnd: S.reaction_table() + S.fin_mid_message() + sample(S.two_sessions(), rnd, 21 if tier == "thorough" else 8) +
+     scripts=lambda tier, rnd: S.reaction_table() + [x for x in S.backpressure() if "notif" in x["tags"] or "end" in x["tags"]] + S.gated() + S.fin_mid_message() + sample(S.two_sessions(), rnd, 21 if tier == "thorough" else 8) +
      (S.notif_values(rnd, 600 if tier == "thorough" else 30)) +
      sample(S.trailing(), rnd, 176 if tier == "thorough" else 30) + sample(S.pacing(), rnd, 60 if tier == "thorough" else 15),
      mc=lambda tier: [mc_pair(["openLo", "ka", "upd"], conns=1, msgs=3)] if tier == "quick" else
@@ -122,7 +122,7 @@ prop("C09",
 
 prop("C10",
      specgen=(40, 1500),
-     scripts=lambda tier, rnd: S.stop_points() + S.gated() + S.api_races() + S.pm_busy() + S.pm_gates() + S.close_race_connect(12 if tier == "thorough" else 4) + S.stop_dial_race(12 if tier == "thorough" else 3) +
+     scripts=lambda tier, rnd: S.stop_points() + [x for x in S.backpressure() if "stop" in x["tags"] or "end" in x["tags"]] + S.lis_fail() + [x for x in S.slow_callbacks() if "end" in x["tags"]] + S.gated() + S.api_races() + S.pm_busy() + S.pm_gates() + S.close_race_connect(12 if tier == "thorough" else 4) + S.stop_dial_race(12 if tier == "thorough" else 3) +
      S.stop_everywhere(rnd, 1200 if tier == "thorough" else 60),
      mc=lambda tier: [mc_pair(["openLo", "ka"])] if tier == "quick" else
      [mc_pair(["openLo", "ka", "upd"], dials=2), mc_pair(["openHi", "ka", "notif"], dials=2),
@@ -135,7 +135,7 @@ prop("C10",
 
 prop("C12",
      specgen=(30, 1000),
-     scripts=lambda tier, rnd: S.damping() + S.damping_exact() + S.pm_gates() + sample(S.fin_mid_message(), rnd, 24 if tier == "thorough" else 8) + (S.damping_matrix() if tier == "thorough" else sample(S.damping_matrix(), rnd, 60)) + S.collision_racy(rnd, 300 if tier == "thorough" else 12) +
+     scripts=lambda tier, rnd: S.damping() + S.damping_exact() + S.cease_subcodes() + S.pm_gates() + sample(S.fin_mid_message(), rnd, 24 if tier == "thorough" else 8) + (S.damping_matrix() if tier == "thorough" else sample(S.damping_matrix(), rnd, 60)) + S.collision_racy(rnd, 300 if tier == "thorough" else 12) +
      (S.damping_random(rnd, 500) if tier == "thorough" else S.damping_random(rnd, 15)),
      mc=lambda tier: [mc_pair(["openLo", "ka", "notif"])] + MC_DAMP if tier == "quick" else
      [mc_pair(["openLo", "ka", "notif", "cease"], dials=2), mc_pair(["openLo", "ka", "fault", "openBad"], dials=2)] + MC_DAMP +
@@ -146,7 +146,7 @@ prop("C12",
 
 prop("C11",
      specgen=(30, 1000),
-     scripts=lambda tier, rnd: S.inbound_drop() + (S.pacing() if tier == "thorough" else sample(S.pacing(), rnd, 70)),
+     scripts=lambda tier, rnd: S.inbound_drop() + S.cease_subcodes() + (S.pacing() if tier == "thorough" else sample(S.pacing(), rnd, 70)),
      mc=lambda tier: [mc_pair(["openLo", "ka", "cease"], conns=1, msgs=3, dials=3), mc_timed(10, 1, 3, False, ("open3", "ka", "cease")),
                       mc_timed(9, 2, 2, False, ("open3", "cease")), mc_timed(12, 2, 3, True, ("open3", "ka", "cease"))] if tier == "quick" else
      [mc_pair(["openLo", "ka", "cease"], conns=2, msgs=2, dials=3), mc_timed(14, 2, 3, False, ("open3", "ka", "notif")),
@@ -156,7 +156,7 @@ prop("C11",
           "cooperative remote; dial attempts carry exact virtual timestamps; non-trivial = at least two dial attempts (or passive)")
 
 prop("C06",
-     scripts=lambda tier, rnd: S.two_sessions() + S.slow_callbacks() + S.holdgrid() if tier == "quick" else S.two_sessions() + S.slow_callbacks() +
+     scripts=lambda tier, rnd: S.two_sessions() + S.slow_callbacks() + S.backpressure() + S.holdgrid() if tier == "quick" else S.two_sessions() + S.slow_callbacks() + S.backpressure() +
      S.holdgrid([(a, b) for a in (0, 3, 4, 9, 10, 30, 90, 180, 240, 65535) for b in (0, 3, 4, 9, 10, 30, 90, 180, 240, 65535)],
                 rnd, 60),
      mc=lambda tier: [mc_pair(["openLo", "ka", "upd"], conns=1, msgs=3), mc_timed(14, 1, 4, False, ("open3", "open0", "ka", "upd")),
@@ -167,14 +167,14 @@ prop("C06",
           "KEEPALIVE and Hold Timer Expired NOTIFICATION must carry exactly the specified virtual timestamp")
 
 prop("C04",
-     scripts=lambda tier, rnd: S.writers() + S.two_sessions() + S.slow_callbacks() + S.writers_random(rnd, 500 if tier == "thorough" else 12),
+     scripts=lambda tier, rnd: S.writers() + S.backpressure() + S.two_sessions() + S.slow_callbacks() + S.writers_random(rnd, 500 if tier == "thorough" else 12),
      mc=lambda tier: [mc_pair(["openLo", "ka", "upd"], conns=1, msgs=3)],
      nontrivial=lambda s, r: any(e["e"] == "ret" and e["n"] in ("write", "writeCb") for e in syscheck.events_of(r)),
      rule="WriteUpdate from callbacks and from application goroutines x body lengths {0,1,4077} x keepalive collisions x "
           "teardown kinds x stale writers; every conn.Write must be exactly one well-formed frame")
 
 prop("C03",
-     scripts=lambda tier, rnd: S.segmentation(rnd) + S.two_sessions() + S.gated_update_eof() +
+     scripts=lambda tier, rnd: S.segmentation(rnd) + S.two_sessions() + S.gated_update_eof() + S.slow_callbacks() + [x for x in S.backpressure() if "-handler-" in x["id"] or "callbacks" in x["id"]] +
      (S.segmentation_long(rnd, 40) if tier == "thorough" else []),
      mc=lambda tier: [mc_pair(["openLo", "ka", "upd"], conns=1, msgs=3)],
      nontrivial=lambda s, r: has_cb(r, "Update"),
@@ -211,7 +211,7 @@ prop("C14",
           "the OPEN on the wire must equal Open!OpenMsg byte for byte, or no OPEN at all when unrepresentable")
 
 prop("C13",
-     scripts=lambda tier, rnd: S.admission() + S.multi_listener() + S.pm_busy() + S.damping_exact() + sample(S.inbound_drop(), rnd, 22 if tier == "thorough" else 8),
+     scripts=lambda tier, rnd: S.admission() + S.multi_listener() + S.pm_busy() + [x for x in S.pm_gates() if "err-connect" in x["id"]] + S.damping_exact() + sample(S.inbound_drop(), rnd, 22 if tier == "thorough" else 8),
      mc=lambda tier: [mc_pair(["openLo", "ka", "notif"], conns=2, msgs=2)] if tier == "quick" else
      [mc_pair(["openLo", "ka", "notif", "cease"], conns=2, msgs=2, dials=2), mc_pair(["openHi", "ka", "upd"], conns=2, msgs=2, passive=True)],
      nontrivial=lambda s, r: any(e["e"] == "acc" for e in syscheck.events_of(r)),
@@ -231,7 +231,7 @@ prop("C20",
 prop("C05",
      pure=["big", "deframe", "prefix"],
      specgen=(30, 300),
-     scripts=lambda tier, rnd: S.pm_busy() + S.pm_gates() + S.api_races() + S.close_race_connect(12 if tier == "thorough" else 4) +
+     scripts=lambda tier, rnd: S.pm_busy() + S.pm_gates() + S.api_races() + S.lis_fail() + S.close_race_connect(12 if tier == "thorough" else 4) +
      sample(S.pacing(), rnd, 120 if tier == "thorough" else 25) +
      sample(S.two_sessions(), rnd, 21 if tier == "thorough" else 6) + S.stop_dial_race(2) +
      S.stop_everywhere(rnd, 600 if tier == "thorough" else 20) + S.fuzz(rnd, 1200 if tier == "thorough" else 40) + S.message_grid(rnd, 800 if tier == "thorough" else 40) +
